@@ -1,0 +1,14 @@
+//go:build verif
+
+package spec
+
+// Contracts for the verification machinery in /verif (comment-only; no executable code).
+
+//@ func (s *Spec) DFA() (*auto.DFA, map[grammar.Terminal][]auto.State, error)
+//@   opaque
+//@   requires s != nil
+//@   ensures result2 == nil ==> result0 != nil
+
+//@ func (s *Spec) LALRParsingTable() (*lr.ParsingTable, error)
+//@   opaque
+//@   requires s != nil
